@@ -1,6 +1,7 @@
 (* C04 - only sufficiently confirmed source events are relayed.
-   Executable model of the five confirmation guards and of the BTC scan loop's waiting rule.
-   Definitions only; proofs are in Proofs/C04.v.
+   Executable model of the six confirmation guards, of the BTC scan loop's waiting rule (over
+   answered and failed head lookups) and of the lookups that establish the bound (which may fail,
+   stall or advance).  Definitions only; proofs are in Proofs/C04.v.
 
    Source anchors (Go):
      BtcScan     chains/btc/listener/listener.go        ListenToEvents:  head - start  <  conf  -> wait
@@ -83,34 +84,74 @@ Definition single_ok (p : path) (head blk conf : Z) (blocks : list Z) : bool :=
    | _ => true
    end).
 
-(* The BTC scan loop over a history of observed heads (one successful poll per element; all event
-   handlers succeed - handler and RPC failures are C05's subject).  [cur = None] is the nil start
-   block, replaced by the first head seen.  Output: (poll index, block handled at that poll). *)
-Fixpoint scan (cur : option Z) (conf : Z) (k : N) (heads : list Z) : list (N * Z) :=
-  match heads with
+(* The BTC scan loop over a history of polls (one poll per element; all event handlers succeed -
+   handler failures are C05's subject).  A poll is [Some h] - the head lookup (GetBestBlockHash, then
+   GetBlockVerboseTx of that hash) answered height h - or [None] - one of the two RPCs failed: the
+   loop waits and polls again, nothing is handled.  [cur = None] is the nil start block, replaced by
+   the first head seen.  Output: (poll index, block handled at that poll). *)
+Fixpoint scan (cur : option Z) (conf : Z) (k : N) (polls : list (option Z)) : list (N * Z) :=
+  match polls with
   | [] => []
-  | h :: r =>
+  | None :: r => scan cur conf (k + 1)%N r
+  | Some h :: r =>
       let c := match cur with Some c => c | None => h end in
       if h - c <? conf then scan (Some c) conf (k + 1)%N r
       else (k, c) :: scan (Some (c + 1)) conf (k + 1)%N r
   end.
 
-(* Judge for a whole history: walk the polls with the cursor implied by the observation itself. *)
-Fixpoint hist_ok (cur : option Z) (conf : Z) (k : N) (heads : list Z) (obs : list (N * Z)) : bool :=
-  match heads with
-  | [] => match obs with [] => true | _ => false end
-  | h :: r =>
-      let c := match cur with Some c => c | None => h end in
-      match obs with
-      | (k', b) :: obs' =>
-          if N.eqb k' k then
-            (* handled now: must be the cursor block, and sufficiently confirmed *)
-            Z.eqb b c && (conf <=? confirmations h b) && hist_ok (Some (c + 1)) conf (k + 1)%N r obs'
-          else
-            (* not handled at this poll: allowed only if it lacks the extra confirmation *)
-            negb (conf + 1 <=? confirmations h c) && hist_ok (Some c) conf (k + 1)%N r obs
-      | [] => negb (conf + 1 <=? confirmations h c) && hist_ok (Some c) conf (k + 1)%N r obs
-      end
+Definition is_nil {A : Type} (l : list A) : bool := match l with [] => true | _ => false end.
+
+(* The highest head known after one more answer ([None]: the lookup failed, nothing is learnt). *)
+Definition learn (best : option Z) (a : option Z) : option Z :=
+  match best, a with
+  | Some m, Some h => Some (Z.max m h)
+  | None, _ => a
+  | _, None => best
+  end.
+
+(* The entries of the observation that belong to poll [k]: consecutive blocks from the cursor [c],
+   each with enough confirmations under the highest head [m] known at that poll.  Returns the cursor
+   after them and the rest of the observation. *)
+Fixpoint take_poll (k : N) (c m conf : Z) (obs : list (N * Z)) : option (Z * list (N * Z)) :=
+  match obs with
+  | (k', b) :: obs' =>
+      if N.eqb k' k then
+        if Z.eqb b c && (conf <=? confirmations m b) then take_poll k (c + 1) m conf obs' else None
+      else Some (c, obs)
+  | [] => Some (c, [])
+  end.
+
+Definition at_poll (k : N) (obs : list (N * Z)) : bool :=
+  match obs with (k', _) :: _ => N.eqb k' k | [] => false end.
+
+(* Judge for a whole history: walk the polls with the cursor implied by the observation itself.
+   Safety: whatever is handled at a poll are the next blocks from the cursor, each buried deep enough
+   under the highest head the loop has been served so far (a block that had its confirmations at an
+   earlier poll still has them; a failed poll teaches nothing, and while no head is known nothing may
+   be handled).  The property does not limit how many sufficiently buried blocks one poll handles.
+   Liveness: a poll that was served a head under which the cursor block has one confirmation more
+   than required must handle something. *)
+Fixpoint hist_ok (cur best : option Z) (conf : Z) (k : N) (polls : list (option Z)) (obs : list (N * Z)) : bool :=
+  match polls with
+  | [] => is_nil obs
+  | a :: r =>
+      let best' := learn best a in
+      let cur' := match cur with Some c => Some c | None => a end in
+      if at_poll k obs then
+        match cur', best' with
+        | Some c, Some m =>
+            match take_poll k c m conf obs with
+            | Some (c', rest) => hist_ok (Some c') best' conf (k + 1)%N r rest
+            | None => false
+            end
+        | _, _ => false
+        end
+      else
+        (* nothing handled at this poll: allowed only if the cursor block lacks the extra confirmation *)
+        match a, cur' with
+        | Some h, Some c => negb (conf + 1 <=? confirmations h c)
+        | _, _ => true
+        end && hist_ok cur' best' conf (k + 1)%N r obs
   end.
 
 (* ---- several guard evaluations: batches, sequences, concurrent schedules -------------------------
@@ -136,8 +177,6 @@ Definition processed_opt (p : path) (ohead oblk : option Z) (conf : Z) : list Z 
   | Some head, Some blk => processed p head blk conf
   | _, _ => []
   end.
-
-Definition is_nil {A : Type} (l : list A) : bool := match l with [] => true | _ => false end.
 
 Definition eval_ok (p : path) (ohead oblk : option Z) (conf : Z) (blocks : list Z) : bool :=
   match ohead, oblk with
@@ -169,6 +208,70 @@ Definition batch_model (p : path) (head conf : Z) (blks : list Z) : list Z :=
   flat_map (fun b => processed p head b conf) blks.
 Definition batch_ok (p : path) (head conf : Z) (blocks : list Z) : bool :=
   forallb (fun b => buried p head b conf) blocks.
+
+(* ---- the lookups that establish the bound ---------------------------------------------------------
+   Every guard compares the event block with a bound it has to fetch first: LatestBlock (EVM),
+   GetBestBlockHash + GetBlockVerboseTx (BTC), GetFinalizedHead + GetBlock (Substrate).  A lookup may
+   fail, and an implementation may look the bound up more than once (a head that stalls, or advances,
+   while it waits).  [answers] are the answers ONE evaluation was actually served, in order: [Some h] -
+   the lookup answered height h; [None] - an RPC of the lookup returned an error, or the answer
+   carried no number.  The unchanged code looks the bound up once and gives up on an error.
+
+   The judge: what was processed must be buried deep enough under the highest head the evaluation was
+   served ([best_known]; heads only grow, so confirmations counted against any head that was served
+   are confirmations the block has).  Without any answered lookup there is no bound: nothing may be
+   processed - an error or a skip are both fine. *)
+Definition best_known (answers : list (option Z)) : option Z := fold_left learn answers None.
+
+Definition bound_ok (p : path) (obound : option Z) (conf : Z) (blocks : list Z) : bool :=
+  match obound with
+  | Some h => batch_ok p h conf blocks
+  | None => is_nil blocks
+  end.
+
+(* one evaluation with scripted lookups; [oblk = None]: the block of the event is unknown (the
+   receipt lookup failed, or the receipt names no block) *)
+Definition lookup_model (p : path) (script : list (option Z)) (oblk : option Z) (conf : Z) : list Z :=
+  match script with
+  | a :: _ => processed_opt p a oblk conf
+  | [] => []
+  end.
+
+Definition lookup_ok (p : path) (answers : list (option Z)) (oblk : option Z) (conf : Z) (blocks : list Z) : bool :=
+  match oblk with
+  | Some _ => bound_ok p (best_known answers) conf blocks
+  | None => is_nil blocks
+  end.
+
+(* Several evaluations, one after the other, on ONE long-lived handler whose lookups are answered
+   from one script: every evaluation of the unchanged code consumes one answer.  Each evaluation is
+   observed with the answers the handler has been served SO FAR (a handler may legitimately remember
+   a head it was served by an earlier call) and judged on them. *)
+Fixpoint scripted_model (p : path) (conf : Z) (script : list (option Z)) (blks : list (option Z)) : list (list Z) :=
+  match blks with
+  | [] => []
+  | ob :: r => lookup_model p script ob conf :: scripted_model p conf (tl script) r
+  end.
+
+Definition scripted_eval := (option Z * list (option Z) * list Z)%type.  (* event block, served so far, processed *)
+
+Definition scripted_ok (p : path) (conf : Z) (evs : list scripted_eval) : bool :=
+  forallb (fun e => match e with (oblk, served, blocks) => lookup_ok p served oblk conf blocks end) evs.
+
+(* the unchanged code on a whole script: evaluation i decides on answer i, the handler having been
+   served the answers 0..i *)
+Fixpoint served_so_far (seen script : list (option Z)) (blks : list (option Z)) : list (list (option Z)) :=
+  match blks with
+  | [] => []
+  | _ :: r => (seen ++ firstn 1 script) :: served_so_far (seen ++ firstn 1 script) (tl script) r
+  end.
+
+(* one range with several retry requests whose one bound lookup may fail *)
+Definition batch_model_opt (p : path) (ohead : option Z) (conf : Z) (blks : list Z) : list Z :=
+  match ohead with
+  | Some h => batch_model p h conf blks
+  | None => []
+  end.
 
 (* EVM retry by transaction hash through the real event handler: one RetryV1 event of a scanned
    range = (the receipt was served with status 1?, head served to this event, the receipt's block
